@@ -46,8 +46,12 @@ package contentstream
 //@     invariant forall k int :: {p.data[k]} old(p.pos) <= k && k < p.pos ==> pdfWS(p.data[k])
 //@     decreases len(p.data) - p.pos
 
+// C06: both parsers convert the text of a number with the same functions at the same precision: reals as 64-bit
+// floating point, integers as base-10 64-bit (same clauses on core.(*Parser).parseNumber / ParseObject)
 //@ func (*Parser) parseNumber results (obj, err)
-//@   property C02
+//@   property C02, C06
+//@   callsite strconv.ParseFloat(s, bits) requires reals_at_double_precision: bits == 64 && same(s, numStr)
+//@   callsite strconv.ParseInt(s, base, bits) requires integers_base_10_64_bit: base == 10 && bits == 64 && same(s, numStr)
 //@   requires pinv(p) && p.pos < len(p.data)
 //@   requires first: p.data[p.pos] == '-' || p.data[p.pos] == '+' || p.data[p.pos] == '.' || (p.data[p.pos] >= '0' && p.data[p.pos] <= '9')
 //@   ensures pinv(p) && p.pos > old(p.pos) && psame(p, old(p))
